@@ -362,16 +362,19 @@ func init() {
 	}
 	fw.Register(&fw.Prop{
 		ID: "C08",
-		Rule: "(i) functions of arity 0-2 with every body of <= 3 statements over 10 statements (assign a parameter / a new name / an existing global, store through a container parameter, three returns, a call of a second function, bounded recursion, showing the parameters) called with every list of 0-3 arguments over {scalar, global array, array literal, unset variable, missing member, index past the end} from 4 expression positions; every name is shown afterwards (unset or value); " +
+		Rule: "(0) arguments and results are values when passed / returned: lists read, effect, read of one scalar location as arguments, and calls returning a global next to calls changing it (the call and return programs of C09's copy-time family); (i) functions of arity 0-2 with every body of <= 3 statements over 10 statements (assign a parameter / a new name / an existing global, store through a container parameter, three returns, a call of a second function, bounded recursion, showing the parameters) called with every list of 0-3 arguments over {scalar, global array, array literal, unset variable, missing member, index past the end} from 4 expression positions; every name is shown afterwards (unset or value); " +
 			"(ii) explicit-state search over histories of 15 frame-exit transitions (normal end, return from loops / match blocks, match with expression / block body, match blocks left by continue / break / next, calls left by next, nested call+match+call, 300-deep recursion, no case selected, surplus / missing arguments) fired from 4 nesting contexts, all histories of length <= 2 (thorough 3): the state is the evaluator's frame stack after the history and the invariant is that it equals the initial one-frame stack, output compared with the model; " +
 			"(iii) each transition over 5000 elements; (iv) the refusal depth of direct, mutual and through-match recursion found by bisection and required to be the same after 5000 repetitions of each transition; states = frame stacks and call classes reached",
-		Plan: func(t fw.Tier) int { return 3*nb + c08NCtx*nt + c08NCtx + len(c08Shapes) },
+		Plan: func(t fw.Tier) int { return 3*nb + c08NCtx*nt + c08NCtx + len(c08Shapes) + 1 },
 		Bound: func(t fw.Tier) string {
 			return "bodies <= 3 statements; histories <= 2 (thorough 3) transitions x 4 contexts; 5000-element histories; bisection over [1,20000]"
 		},
 		Assumptions: []string{"reference interpreter mc/refsem (3.12)", "hook VerifFrames exposes the frame stack after a run"},
 		Run: func(c *fw.Ctx, u int) {
 			switch {
+			case u == 3*nb+c08NCtx*nt+c08NCtx+len(c08Shapes):
+				// arguments and results are values at the moment they are passed / returned (programs shared with C09)
+				copyTimeRun(c, "call", "return")
 			case u < 3*nb:
 				arity, first := u/nb, u%nb
 				lists := argLists()
@@ -423,6 +426,9 @@ func init() {
 			}
 		},
 		Replay: func(c *fw.Ctx, raw json.RawMessage) *fw.Violation {
+			if v, ok := copyTimeReplay(c, raw); ok {
+				return v
+			}
 			var s c08Spec
 			if !unmarshal(raw, &s) {
 				return nil
